@@ -267,7 +267,9 @@ def run(rep):
     STAMPS = "se.index.tz_localize(None).values"
     pins = [f'({STAMPS}).astype("datetime64[s]").astype(np.int64)', f'({STAMPS}).astype("datetime64[s]").astype("int64")',
             f'({STAMPS}).astype("datetime64[s]").astype(int)', f'(({STAMPS}) - np.datetime64("1970-01-01T00:00:00")) // np.timedelta64(1, "s")',
-            f'(({STAMPS}) - np.datetime64("1970-01-01")) // np.timedelta64(1, "s")', f'(({STAMPS}).astype("datetime64[s]").view(np.int64))']
+            f'(({STAMPS}) - np.datetime64("1970-01-01")) // np.timedelta64(1, "s")', f'(({STAMPS}).astype("datetime64[s]").view(np.int64))',
+            'se.index.tz_localize(None).as_unit("s").asi8', 'se.index.tz_localize(None).as_unit("s").asi8.copy()',
+            'se.index.tz_localize(None).as_unit("s").astype(np.int64)', 'se.index.tz_localize(None).as_unit("s").view(np.int64)']
     okpin = vs is not None and any(pq.same(vs, p_) for p_ in pins)
     rep.check(okpin, "R14.a", "data/dutils.py", "var2h", "time stamps converted to seconds through an explicit unit pin (datetime64[s])",
               f"`{show(vs)[:140] if vs else None}`: an integer view of the index divided by a constant depends on the storage resolution (ns / us / s) of the index", line=st.call.lineno)
@@ -278,7 +280,10 @@ def run(rep):
     S0 = "se.index[0]"
     HSTART = f"datetime(({S0}).year, ({S0}).month, ({S0}).day, ({S0}).hour) + delta(hours=1)"
     hsec = pa.get("hstartsec")
-    okh = hsec is not None and pq.same(hsec, f"(({HSTART}) - datetime(1970, 1, 1)).total_seconds()")
+    okh = hsec is not None and (pq.same(hsec, f"(({HSTART}) - datetime(1970, 1, 1)).total_seconds()") or
+                               pq.same(hsec, f"(({HSTART}) - datetime(1970, 1, 1)) // timedelta(seconds=1)") or
+                               pq.same(hsec, f"(({HSTART}) - datetime(1970, 1, 1)) // delta(seconds=1)") or
+                               pq.same(hsec, f"(({HSTART}) - datetime(1970, 1, 1)) / timedelta(seconds=1)"))
     rep.check(okh, "R14.c", "data/dutils.py", "var2h", "origin = first whole hour after the first observation, in seconds since 1970-01-01 (same epoch as the stamps)",
               show(hsec)[:160] if hsec else "", line=f.lineno)
     hv = st.args.get("hvalues")
